@@ -183,7 +183,7 @@ def CELL(**extra):
 
 
 CEP = OBJ(f"{CR}::PythonCryptoEndpoint", prefix=BYTES_FIXED(22), logger=LOGGER(), endpoint=EFFECT("raw", send={}),
-          settings=OBJ(f"{TC}::TunnelSettings", max_relay_early=INT), max_relay_early=INT,
+          settings=OBJ(f"{TC}::TunnelSettings", max_relay_early=INT),
           circuits=DICTOBJ(INT, CIRCUIT("[hc1]"), where="v.circuit_id == k"), relays=DICTOBJ(INT, RELAY(), where="True"),
           exit_sockets=DICTOBJ(INT, ROUTING(f"{ES}::TunnelExitSocket", hop=HOP()), where="v.circuit_id == k"))
 contract(f"{CR}::PythonCryptoEndpoint.send_cell", "send_cell.does-not-refresh-liveness",
@@ -196,3 +196,7 @@ contract(f"{CR}::PythonCryptoEndpoint.send_cell", "send_cell.does-not-refresh-li
                   "cid0 not in self.relays or self.relays[cid0].last_activity == old(self.relays[cid0].last_activity)",
                   "cid0 not in self.exit_sockets or self.exit_sockets[cid0].last_activity == old(self.exit_sockets[cid0].last_activity)"],
          note="last_activity is a receive clock: sending over an entry leaves it unchanged")
+
+
+# reclaiming an exit entry releases BOTH outside sockets (shared with C11)
+exit_socket_close_contract()
